@@ -2,7 +2,9 @@
 
 Protocol: see lean/Driver/Signals.lean.  Observables are named by small ints (attribute `o<k>`),
 handlers by small ints (even = plain function, odd = bound method); the harness holds the only
-strong reference to every handler, so `drop h` kills it at once (refcounting).
+strong reference to every handler, so `drop h` kills it at once (refcounting).  A handler with a program
+(`prog:h:ACT,…` in the header) makes those registry calls — observe / unobserve / clear_all_subscriptions — every
+time it is called, while the notification that called it is still going on.
 """
 from __future__ import annotations
 
@@ -78,9 +80,14 @@ class SigImpl:
         self.ms = ms
         toks = header.split()[2:]
         self.natural = "natural" in toks
+        self.progs = {}
         groups, cur = [], []
         for t in toks:
             if t == "natural":
+                continue
+            if t.startswith("prog:"):
+                _, h, acts = t.split(":")
+                self.progs[int(h)] = acts.split(",")
                 continue
             if t == "|":
                 groups.append(cur)
@@ -155,6 +162,16 @@ class SigImpl:
                canon_idx(signal.get("index")))
         self.out.append(rec)
         self.trace.append(("deliver",) + rec + (owner_ok,))
+        # the handler's own registry calls, made while it is being notified
+        for act in self.progs.get(hid, ()):
+            a = act.split(".")
+            self.trace.append(("act", hid, act))
+            if a[0] == "c":
+                self.inst.clear_all_subscriptions(self.sel_name(a[1]))
+            else:
+                keepalive, h = self.handler(int(a[3]))
+                (self.inst.observe if a[0] == "o" else self.inst.unobserve)(self.sel_name(a[1]), self.sel_type(a[2]), h)
+                del h, keepalive
 
     def on_notify(self, inst, name, old, new, typ, kw):
         self.trace.append(("notify", int(name[1:]), typ, canon_val(old), canon_val(new), canon_idx(kw.get("index")),
@@ -408,15 +425,46 @@ def shadow_apply(shadow, line):
         pass
 
 
+def gen_act(R, decls, nh, me, passive):
+    """one registry call of handler `me` that is accepted whatever the state: mostly about itself (one-shot handlers).
+    Only handlers without a program (`passive`) are subscribed by a handler: on code that walks the live list a handler
+    that subscribes a subscribing handler would never return"""
+    kind = dict(decls)
+    names = [n for n, _ in decls]
+    k = R.random()
+    other = R.randrange(nh)
+    if k < 0.15:
+        return f"c.{R.choice(['*'] + list(map(str, names)))}"
+    verb = "u" if (k < 0.7 or not passive) else "o"
+    who = (me if R.random() < 0.7 else other) if verb == "u" else R.choice(passive)
+    n = "*" if R.random() < 0.3 else str(R.choice(names))
+    if R.random() < 0.4:
+        t = "*"
+    elif n == "*":
+        t = "change"
+    else:
+        t = R.choice(KIND_TYPES[kind[int(n)]])
+    return f"{verb}.{n}.{t}.{who}"
+
+
 def gen_sig_scenario(R, rejecting=False, n_ops=None):
     header, decls = gen_sig_header(R)
     names = [n for n, _ in decls]
     lsts = [n for n, k in decls if k == "lst"]
     obss = [n for n, k in decls if k == "obs"]
-    lines = [header]
     shadow = {}
     nh = R.randrange(2, 6)
     dead = set()
+    if R.random() < 0.25:
+        # re-entrant handlers: 1-2 of them make registry calls while they are being notified
+        toks = header.split()
+        at = len(toks) - 1 if toks[-1] == "natural" else len(toks)
+        active = R.sample(range(nh), R.choice([1, 1, 2]))
+        passive = [h for h in range(nh + 2) if h not in active]
+        for h in active:
+            toks.insert(at, f"prog:{h}:" + ",".join(gen_act(R, decls, nh, h, passive) for _ in range(R.choice([1, 1, 2]))))
+        header = " ".join(toks)
+    lines = [header]
 
     def live_h():
         c = [h for h in range(nh) if h not in dead]
@@ -506,10 +554,26 @@ def _matches(sel, x):
 def oracle_sig(sc, obs):
     tr = sc.meta.get("trace") or []
     bad = []
-    toks = [t for t in sc.lines[0].split()[2:] if t not in ("|", "natural")]
+    toks = [t for t in sc.lines[0].split()[2:] if t not in ("|", "natural") and not t.startswith("prog:")]
+    progs = {int(t.split(":")[1]): t.split(":")[2].split(",") for t in sc.lines[0].split()[2:] if t.startswith("prog:")}
     decls = [(int(t.split(":")[0]), t.split(":")[1]) for t in toks]
     kind = dict(decls)
     spec = {(n, t): [] for n, k in decls for t in KIND_TYPES[k]}   # subscriptions in subscription order
+
+    def apply_act(act):
+        """a registry call made by a handler (always an accepted one) on the subscription table"""
+        a = act.split(".")
+        for (x, ty) in spec:
+            if not _matches(a[1], x):
+                continue
+            if a[0] == "c":
+                spec[(x, ty)] = []
+            elif _matches(a[2], ty):
+                if a[0] == "o":
+                    spec[(x, ty)].append(int(a[3]))
+                else:
+                    spec[(x, ty)] = [g for g in spec[(x, ty)] if g != int(a[3])]
+
     dead = set()
     replica = {}          # list name -> the listener's copy
     obsval = {}           # observable -> last value
@@ -576,12 +640,22 @@ def oracle_sig(sc, obs):
             _, n, ty, old, new, idx, keys = nt
             got = []
             p += 1
-            while p < len(body) and body[p][0] == "deliver":
-                got.append(body[p])
+            while p < len(body) and body[p][0] in ("deliver", "act"):
+                if body[p][0] == "deliver":
+                    got.append(body[p])
                 p += 1
-            want = [h for h in spec.get((n, ty), []) if h not in dead]
+            # the live subscribers the signal had when it was emitted, in order; one that a handler called before it has
+            # unsubscribed meanwhile (unobserve / clear_all_subscriptions) receives nothing more; the calls of a handler
+            # take effect when it is called
+            want = []
+            for h in [h for h in spec.get((n, ty), []) if h not in dead]:
+                if h in spec[(n, ty)]:
+                    want.append(h)
+                    for act in progs.get(h, ()):
+                        apply_act(act)
             if [g[1] for g in got] != want:
-                bad.append(f"delivery: signal {n}/{ty} of `{ev[1]}` reached {[g[1] for g in got]}, subscribed (in order) {want}")
+                bad.append(f"delivery: signal {n}/{ty} of `{ev[1]}` reached {[g[1] for g in got]}, subscribed (in order, at "
+                           f"their turn) {want}")
             for g in got:
                 if g[2:7] != (n, ty, old, new, idx) or not g[7]:
                     bad.append(f"payload: handler {g[1]} got {g[2:8]} for notify {(n, ty, old, new, idx)}")
@@ -658,6 +732,13 @@ def _apply_replica(d, ty, old, new, idx):
 
 def tags_sig(sc, obs):
     yield "natural-set-order" if "natural" in sc.lines[0].split() else "forced-set-order"
+    if "prog:" in sc.lines[0]:
+        yield "mode:reentrant-handlers"
+        acts = [e for e in (sc.meta.get("trace") or []) if e[0] == "act"]
+        for e in acts:
+            yield "branch:handler-called-" + {"o": "observe", "u": "unobserve", "c": "clear"}[e[2][0]] + "-while-notified"
+            if e[2][0] == "u" and e[2].split(".")[3] == str(e[1]):
+                yield "branch:handler-unsubscribed-itself-while-notified"
     yield f"classes:{sc.lines[0].split().count('|') + 1}"
     for l, o in zip(sc.lines[1:], obs[1:]):
         w = l.split()
